@@ -82,6 +82,8 @@ def run_codec_property(v, prop, ops, oracle, rule_extra="", known=None):
             continue                     # scaled twins carry only the observations C03 needs
         if getattr(x, "liar", False) and prop != "C17":
             continue                     # wrongly declared types: outside every other property
+        if getattr(x, "ser_ops_only", False) and prop != "C16":
+            continue                     # nested slices: only their streams are compared (C16)
         if getattr(x, "pair_only", False) and prop not in ("C01", "C02", "C04", "C05", "C06", "C07"):
             continue                     # near-miss partners carry only ser / feed / cross / full / eps / schema
         for (cc, label) in views:
@@ -505,9 +507,10 @@ def oracle_c16(c, x):
         if st.get("status") != want:
             return "a lying iterator (announced %d, produced %d) gave %s, required %s" % (k, n, st.get("status"), want)
         return None
-    tw = [y for y in c.cases if getattr(y, "twin_of", None) == x.cid]
+    nested = getattr(x, "ser_ops_only", False)
+    tw = [y for y in c.cases if getattr(y, "outer_twin_of" if nested else "twin_of", None) == x.cid]
     if not tw:
-        return "no vector twin generated"
+        return None if getattr(x, "outer_twin_of", None) else "no vector twin generated"
     tst = ser_status(c, tw[0])
     if st.get("status") != "OK" or tst.get("status") != "OK":
         return "serialization did not succeed (slice/iterator: %s, vector: %s)" % (st.get("status"), tst.get("status"))
@@ -519,7 +522,7 @@ def oracle_c16(c, x):
     for i in range(0, len(a), 2):
         if a[i:i + 2] != b[i:i + 2] and mm[i:i + 2] != "xx":
             return "streams differ at byte %d: %s (slice/iterator) vs %s (vector)" % (i // 2, a[i:i + 2], b[i:i + 2])
-    if st.get("chunks") is None:
+    if st.get("chunks") is None or nested:
         return None
     # and it deserializes as the vector type to the items, in both modes
     exp = canon_of(c.U, x.t, x.v)
